@@ -2,6 +2,7 @@ package openflow13
 
 import (
 	"encoding/binary"
+	"errors"
 
 	"github.com/contiv/libOpenflow/common"
 	log "github.com/sirupsen/logrus"
@@ -155,6 +156,9 @@ func (f *FlowMod) UnmarshalBinary(data []byte) error {
 
 	for n < int(f.Header.Length) {
 		instr := DecodeInstr(data[n:])
+		if instr == nil {
+			return errors.New("failed to decode a flow-mod instruction")
+		}
 		f.Instructions = append(f.Instructions, instr)
 		n += int(instr.Len())
 	}
